@@ -112,11 +112,13 @@ def strategy(tier: str):
          # the same Persistence object saved earlier states of the registry (scheduled saves); the file may have been removed since
          "mid_saves": st.one_of(st.just([]), st.lists(st.integers(0, 24), min_size=1, max_size=3, unique=True).map(sorted)),
          "unlink_after_mid": st.sampled_from((False, False, True)),
-         "final_saves": st.sampled_from((1, 1, 2)), "build": st.sampled_from((None, None, "outside", "two-runs")), "reload_after_use": st.booleans(), "nested_edit": st.sampled_from((False, False, True))}
+         "final_saves": st.sampled_from((1, 1, 2)), "build": st.sampled_from((None, None, "outside", "two-runs")), "reload_after_use": st.booleans(), "nested_edit": st.sampled_from((False, False, True)),
+         "debug_log": st.sampled_from((False, False, True)), "warnings": st.sampled_from((None, None, "error")), "repath": st.sampled_from((False, False, True))}
     )
     direct = st.fixed_dictionaries({"kind": st.just("direct"), "registry": _direct_registry(), "legacy_nulls": st.booleans(), "prior_save": prior, "load_via": load_via,
                                     "final_saves": st.sampled_from((1, 1, 2)), "unlink_after_mid": st.sampled_from((False, False, True)),
-                                    "build": st.sampled_from((None, None, "outside", "two-runs")), "reload_after_use": st.booleans(), "nested_edit": st.sampled_from((False, False, True))})
+                                    "build": st.sampled_from((None, None, "outside", "two-runs")), "reload_after_use": st.booleans(), "nested_edit": st.sampled_from((False, False, True)),
+                                    "debug_log": st.sampled_from((False, False, True)), "warnings": st.sampled_from((None, None, "error")), "repath": st.sampled_from((False, False, True))})
     overlap = st.fixed_dictionaries({"kind": st.just("overlap"), "registry": _direct_registry(), "head_start": st.integers(0, 8), "grow": st.integers(1, 3)})
     return gen.weighted((4, hist), (2, direct), (1, overlap))
 
@@ -145,6 +147,11 @@ def enumerate_cases(tier: str):
                 yield {"kind": "hist", "version": "2.1", "ops": [["rx", "1;255;0;0;17;2.1\n"], ["rx", "1;0;0;0;6;t\n"], ["rx", "1;0;1;0;0;20\n"], ["rx", "2;255;0;0;17;2.1\n"]],
                        "load_via": via, "final_saves": finals, "unlink_after_mid": unlink, "mid_saves": [1, 3]}
     yield {"kind": "direct", "registry": small, "legacy_nulls": False, "load_via": "own", "final_saves": 1, "nested_edit": True}
+    for extra in ({"debug_log": True}, {"warnings": "error"}, {"repath": True}, {"repath": True, "final_saves": 2}, {"debug_log": True, "warnings": "error", "repath": True}):
+        for via in ("own", "arg"):
+            yield {"kind": "direct", "registry": small, "legacy_nulls": False, "load_via": via, "final_saves": 1, **extra}
+            yield {"kind": "direct", "registry": {}, "legacy_nulls": False, "load_via": via, "final_saves": 1, **extra}
+        yield {"kind": "hist", "version": "2.1", "ops": [["rx", "1;255;0;0;17;2.1\n"], ["rx", "1;0;0;0;6;t\n"], ["rx", "1;0;1;0;0;20\n"]], "load_via": "own", "final_saves": 1, **extra}
     yield {"kind": "hist", "version": "2.1", "ops": [["rx", "1;255;0;0;17;2.1\n"], ["rx", "1;0;0;0;6;t\n"], ["rx", "1;0;1;0;0;20\n"]], "load_via": "own", "final_saves": 2, "nested_edit": True}
     for build in ("outside", "two-runs"):
         yield {"kind": "direct", "registry": small, "legacy_nulls": False, "load_via": "own", "final_saves": 1, "build": build}
@@ -332,8 +339,13 @@ def run_case(case: dict) -> Outcome:
             return fail(f"construct-raises:{type(err).__name__}", f"Gateway(..., Config(persistence_file=...)) built by synchronous start-up code (no event loop yet) raised {err!r}")
 
     async def go() -> Outcome | None:
+        nonlocal path
         # "outside": the objects are created by synchronous start-up code before any event loop runs (then asyncio.run)
         gateway = built_outside or Gateway(env.RecordingTransport(), Config(persistence_file=path))
+        if case.get("repath"):
+            # the application points the Persistence object at another file after it was built (its `path` is a public field)
+            path = os.path.join(scratch, "moved-registry.json")
+            gateway.persistence.path = path
         if case["kind"] == "hist":
             gateway.protocol_version = case["version"]
             mids = set(case.get("mid_saves") or ())
@@ -353,8 +365,11 @@ def run_case(case: dict) -> Outcome:
                                                "children": {"1": {"child_id": 1, "child_type": 6, "values": {"0": "x" * 50}}}} for i in range(1, 6)}, indent=2))
             if case["prior_save"] == "through-save":
                 prior = Gateway(env.RecordingTransport(), Config(persistence_file=path))
-                await prior.persistence.load()
-                await prior.persistence.save()
+                try:
+                    await prior.persistence.load()
+                    await prior.persistence.save()
+                except Exception as err:  # noqa: BLE001
+                    return fail(f"load-rejects-saved-file:earlier-session:{type(err).__name__}", f"an earlier session (load the well-formed file, save it) raised {err!r}")
         before = env.snapshot(gateway.nodes)
         info["snapshot"] = before
         for node in before.values():
@@ -426,7 +441,8 @@ def run_case(case: dict) -> Outcome:
         return None
 
     try:
-        bad = env.run(go())
+        with env.debug_logging(bool(case.get("debug_log"))), env.strict_warnings(case.get("warnings") == "error"):
+            bad = env.run(go())
         if bad is None and case.get("build") == "two-runs":
             async def second_run() -> Outcome | None:
                 saver = info["loader"]
